@@ -125,6 +125,11 @@ def corpus():
     for ns in (1, 7, 8, 9, 40):
         out.append({"kind": "views", "circuit": c3, "n_samples": ns, "seed": 3, "operator": zs})
     out += [
+        # seeded change C04_m2: a three-qubit gate on a ROTATED index order (X(0) X(1) CCX(1,2,0) -> |110>)
+        {"kind": "views", "circuit": {"n": 3, "ops": [_x(0), _x(1), {"g": {"controlled": {"gate": "X", "angles": []}, "k": 2}, "qs": [1, 2, 0]}]},
+         "n_samples": 6, "seed": 4, "operator": zs},
+        {"kind": "views", "circuit": {"n": 4, "ops": [_x(3), _x(0), {"g": {"controlled": {"gate": "X", "angles": []}, "k": 2}, "qs": [3, 0, 2]}]},
+         "n_samples": 20, "seed": 5, "operator": zs},
         # the degenerate register of width 0 (fixed in 6292974: keys sliced to the width); a regression has sig width-0-register
         {"kind": "views", "circuit": {"n": None, "ops": []}, "n_samples": 3, "seed": 1, "operator": [_term(2, [])]},
         {"kind": "views", "circuit": {"n": 2, "ops": [_x(1)]}, "n_samples": 5, "seed": 2,
@@ -191,6 +196,16 @@ def _general_circuit(rng, n, exact_only):
     c = circ.random_circuit(rng, n, length, names=names, custom_prob=0.0)
     if c["n"] is None and not c["ops"]:
         c["n"] = n
+    if n >= 3 and rng.random() < 0.5:
+        # gates on three or more qubits in an arbitrary (rotated, descending, gapped) index order
+        k = rng.choice([2, 2, 3]) if n >= 4 else 2
+        qs = rng.sample(range(n), k + 1)
+        if rng.random() < 0.5:
+            base = sorted(qs)
+            r = rng.randrange(1, k + 1)
+            qs = base[r:] + base[:r]       # a rotated index order
+        pre = [{"g": {"gate": "X", "angles": []}, "qs": [q]} for q in qs[:k] if rng.random() < 0.8]
+        c["ops"] = pre + [{"g": {"controlled": {"gate": "X", "angles": []}, "k": k}, "qs": qs}] + c["ops"]
     return c
 
 
@@ -232,6 +247,11 @@ def generate(rng, tier):
         n = rng.choice(widths)
         cases.append({"kind": "views", "amps": _random_amps(rng, n), "n_samples": _n_samples(rng, n),
                       "seed": rng.randrange(2 ** 31), "operator": _random_operator(rng, n, ztype=rng.random() < 0.85)})
+    # wide registers (explicit sparse amplitude vectors): both sampling regimes beyond 8 qubits
+    for _ in range(12 if big else 4):
+        n = rng.choice([9, 10])
+        cases.append({"kind": "views", "amps": _random_amps(rng, n), "n_samples": rng.choice([1, 3, 2 ** n - 1, 2 ** n + 1]),
+                      "seed": rng.randrange(2 ** 31), "operator": _random_operator(rng, n, ztype=True)})
     # malformed stream: non-positive sample counts, operators wider than the register
     for _ in range(60 if big else 12):
         n = rng.randrange(1, 4)
@@ -416,6 +436,13 @@ def run_impl(c):
 # ----------------------------------------------------------------------------------------- model side
 def _driver_op(o):
     g = o["g"]
+    if "controlled" in g:
+        # multiply-controlled X (Toffoli family): the exact matrix is written out here, independently of the library
+        assert g["controlled"] == {"gate": "X", "angles": []}
+        d = 2 ** (g["k"] + 1)
+        m = [[[1 if r == c2 else 0, 0] for c2 in range(d)] for r in range(d)]
+        m[d - 2], m[d - 1] = m[d - 1], m[d - 2]
+        return {"m": m, "qs": o["qs"]}
     return {"gate": g["gate"], "angles": g["angles"], "qs": o["qs"]}
 
 
@@ -425,6 +452,8 @@ def requests(c, out):
         return [("freq", {"marked": c["marked"], "freqs": c["freqs"]})]
     if k == "dist":
         return [("dist", {"probs": c["probs"]})]
+    if "amps" in c and len(c["amps"]) > 256:
+        return []  # wide registers: the exact model is too slow there; judged by the oracle only
     payload = {"n_samples": c["n_samples"], "draws": out.get("draws", []) if isinstance(out, dict) else [],
                "operator": c["operator"]}
     if "amps" in c:
